@@ -6,6 +6,8 @@ objects that carry the value symbolically and answer exactly the string operatio
   * ``SymNumText``      = a positional decimal numeral: the repr truncated to d fraction digits, or ``format(x, '.df')``.
   * ``SymBoolText``     = ``str(b)`` / ``str(b).lower()``.
 """
+from fractions import Fraction
+
 import z3
 
 from .core import Sym, SymBool, SymInt, SymReal, Unsupported, ctx, floor_int, lift, round_half_even, _toreal
@@ -18,6 +20,9 @@ def exponent_regime(x):
     """z3 Bool: repr(x) uses exponent notation"""
     a = z3.If(x >= 0, x, -x)
     return z3.And(x != 0, z3.Or(a < LO, a >= HI))
+
+
+EXPONENT_REPRESENTATIVES = [2.5e-05, -2.5e-05, 1e-05, 1.2246467991473533e-15, -3.75e-07, 5e-05, 1.5e+16, 1e+16, 9.999e-05]
 
 
 class SymDec:
@@ -39,9 +44,14 @@ class SymDec:
         if sep != ".":
             raise Unsupported("str(float).split with another separator")
         if ctx().decide(exponent_regime(self.x.e)):
-            # '5e-05' has no '.', '1.5e-05' has one; either way no piece is a plain decimal numeral: the pieces are
-            # represented by the exponent-form numeral itself
-            return [self]
+            # the correct writer never splits an exponent-form repr.  Code that does is followed exactly on representative
+            # values ('5e-05' has no '.', '2.5e-05' has one, long mantissas, both signs, both ends of the regime): the float is
+            # pinned to each of them in turn (a fork) and the real repr is split; other values stay undecided
+            for v in EXPONENT_REPRESENTATIVES:
+                fr = Fraction(v)  # the exact binary value of the double
+                if ctx().decide(_toreal(self.x.e) == z3.RealVal(f"{fr.numerator}/{fr.denominator}")):
+                    return repr(float(v)).split(".")
+            raise Unsupported("split('.') of a float repr in exponent notation outside the representative values")
         return [_IntPart(self.x), _FracPart(self.x)]
 
     def __symfloat__(self):
